@@ -193,3 +193,10 @@ func WalkIterRootAlias(root *gtree.Node, opts ...gtree.Option) ([]WalkRec, Outco
 	})
 	return recs, o
 }
+
+// VerifyRootMissing verifies a programmatic tree against a directory that does not exist.
+func VerifyRootMissing(root *gtree.Node) Outcome {
+	return Guard(func() error {
+		return gtree.VerifyFromRoot(root, gtree.WithTargetDir("/nonexistent-verif-dir"), gtree.WithStrictVerify())
+	})
+}
